@@ -41,9 +41,20 @@ class ChainVerdict:
     evaluations: int = 0
 
 
+_EMIT: list = [None]  # emission extractor in force (None: yields)
+
+
 def _yields(stmts: list[ast.stmt]) -> list[str]:
+    """Elements emitted by the statements, in order: ``yield E`` by default, or whatever the rule's extractor recognises
+    (e.g. ``X._set_content_id()`` emits X)."""
     out = []
     for st in stmts:
+        if _EMIT[0] is not None:
+            for n in ast.walk(st):
+                t = _EMIT[0](n)
+                if t is not None:
+                    out.append(t)
+            continue
         for n in ast.walk(st):
             if isinstance(n, ast.YieldFrom):
                 raise Unsupported("yield from inside a chain loop", n)
@@ -64,22 +75,39 @@ def _last_store(stmts: list[ast.stmt], name: str) -> str | None:
     return val
 
 
-def chain_generator(body: list[ast.stmt], start: str, step: Callable[[str], str], self_call: Callable[[str], str] | None = None) -> ChainVerdict:
+def chain_generator(body: list[ast.stmt], start: str, step: Callable[[str], str], self_call: Callable[[str], str] | None = None, *,
+                    emit: Callable[[ast.AST], str | None] | None = None, include_start: bool = False) -> ChainVerdict:
     """``body``: normalised generator body (docstring stripped).  ``step(x)``: source text of the successor of x.
-    ``self_call(x)``: text of the recursive call of the generator on x (for the recursive spelling)."""
+    ``self_call(x)``: text of the recursive call of the generator on x (for the recursive spelling).
+    ``emit``: what counts as emitting an element (default: yield).  ``include_start``: the chain begins with ``start``
+    itself (which is known not to be None) instead of step(start)."""
+    _EMIT[0] = emit
+    try:
+        return _chain(body, start, step, self_call, include_start)
+    finally:
+        _EMIT[0] = None
+
+
+def _chain(body: list[ast.stmt], start: str, step: Callable[[str], str], self_call: Callable[[str], str] | None, include_start: bool) -> ChainVerdict:
     loops = [st for st in body if isinstance(st, (ast.While, ast.For))]
     if not loops:
+        calls = [n for n in walk_body(body) if isinstance(n, ast.Call)]
+        if _EMIT[0] is not None and all(_EMIT[0](c) is not None for c in calls) and not any(isinstance(n, (ast.Yield, ast.YieldFrom)) for n in walk_body(body)):
+            # straight-line code whose only calls are emissions: a bounded number of elements, the chain is not
+            return ChainVerdict(False, f"emits only {_yields(body)}: no loop or recursion follows the chain", "bounded", 1)
         return _recursive_chain(body, start, step, self_call)
     if len(loops) != 1 or not isinstance(loops[0], ast.While) or loops[0].orelse:
         raise Unsupported("chain generator: not a single while loop", body[0] if body else None)
     lp = loops[0]
     i = body.index(lp)
     prologue, epilogue = body[:i], body[i + 1:]
-    if any(isinstance(n, (ast.Yield, ast.YieldFrom)) for n in walk_body(epilogue)):
-        raise Unsupported("chain generator: yields after the loop", epilogue[0])
+    if _yields(epilogue):
+        raise Unsupported("chain generator: emissions after the loop", epilogue[0])
     pl = decision_tree(prologue, resolve="calls")
-    if len(pl) != 1 or pl[0].outcome != "fall" or _yields(pl[0].stmts):
-        raise Unsupported("chain generator: the code before the loop branches or yields", lp)
+    if len(pl) != 1 or pl[0].outcome != "fall":
+        raise Unsupported("chain generator: the code before the loop branches", lp)
+    pre_emits = _yields(pl[0].stmts)
+    first = start if include_start else step(start)
     carried = sorted({n.id for n in ast.walk(lp) if isinstance(n, ast.Name) and isinstance(n.ctx, ast.Store)})
     init = {v: _last_store(pl[0].stmts, v) for v in carried}
     # one iteration, in terms of the entry values  v__in
@@ -97,30 +125,39 @@ def chain_generator(body: list[ast.stmt], start: str, step: Callable[[str], str]
         if live - {x}:
             continue
         xin = f"{x}__in"
-        for kind, key, elem, want_init, wrong_init, wrong_msg in (
-                ("B", k_none(step(xin)), step(xin), start, step(start), "the first element of the chain is skipped"),
-                ("A", k_none(xin), xin, step(start), start, "the start node itself is yielded")):
-            v = _check_iteration(leaves, x, key, elem, step(xin) if kind == "B" else step(xin), kind)
+        before_first = None if include_start else start  # the cursor position "nothing emitted yet" (B only)
+        readings = [
+            # kind, atom, element emitted, emitted before the loop, base value of X, a recognisably wrong base, its message
+            ("A", k_none(xin), xin, [], first, (start if not include_start else step(start)),
+             "the start node itself is yielded" if not include_start else "the start node itself is skipped"),
+            ("B", k_none(step(xin)), step(xin), [] if not include_start else [start], before_first if not include_start else start,
+             step(start) if not include_start else None, "the first element of the chain is skipped"),
+        ]
+        if include_start:
+            readings.append(("C", k_none(step(xin)), xin, [], start, None, ""))
+        for kind, key, elem, want_pre, want_init, wrong_init, wrong_msg in readings:
+            v = _check_iteration(leaves, x, key, elem, step(xin), kind)
             if v is None:
                 continue  # atoms not understood for this reading
             ok, why = v
             if not ok:
-                if init.get(x) in (want_init, wrong_init):
+                if init.get(x) in (want_init, wrong_init) and pre_emits == want_pre:
                     return ChainVerdict(False, why, kind, len(leaves))
                 continue
-            if init.get(x) == want_init:
+            if init.get(x) == want_init and pre_emits == want_pre:
                 return ChainVerdict(True, f"invariant {kind} on `{x}`: base {x} = {want_init}; step proven on {len(leaves)} paths", kind, len(leaves))
-            if init.get(x) == wrong_init:
+            if wrong_init is not None and init.get(x) == wrong_init and pre_emits == want_pre:
                 return ChainVerdict(False, wrong_msg, kind, len(leaves))
             unsupported.append(f"{x} starts as {init.get(x)}")
-    cex = _simulate(leaves, carried, init, start, step, len(entry))
+    cex = _simulate(leaves, carried, init, start, step, len(entry), pre_emits, include_start)
     if cex is not None:
         return ChainVerdict(False, cex, "counterexample", len(leaves))
     raise Unsupported("chain generator: no loop invariant of the two known shapes could be established"
                       + (f" ({unsupported[0]})" if unsupported else ""), lp)
 
 
-def _simulate(leaves: list[Leaf], carried: list[str], init: dict[str, str | None], start: str, step: Callable[[str], str], n_entry: int) -> str | None:
+def _simulate(leaves: list[Leaf], carried: list[str], init: dict[str, str | None], start: str, step: Callable[[str], str], n_entry: int,
+              pre_emits: list[str] | None = None, include_start: bool = False) -> str | None:
     """Counterexample search when no invariant fits: run the extracted transfer function on chains with 0..5 ancestors.
     Only used to *refute*; needs every atom to be a None-test of a chain term.  Returns a description or None."""
     probe = step("\x00")
@@ -152,7 +189,7 @@ def _simulate(leaves: list[Leaf], carried: list[str], init: dict[str, str | None
         return None
     for L in range(0, 6):
         state: dict[str, object] = {v: index(init.get(v), {}) for v in carried}
-        emitted: list[object] = []
+        emitted: list[object] = [index(t, {}) for t in (pre_emits or [])]
         finished = False
         for _ in range(L + 4):
             chosen = None
@@ -185,7 +222,7 @@ def _simulate(leaves: list[Leaf], carried: list[str], init: dict[str, str | None
             state = new
         if any(not isinstance(e, int) for e in emitted):
             return None
-        want_seq = list(range(1, L + 1))
+        want_seq = list(range(0 if include_start else 1, L + 1))
         got = [e if e <= L else None for e in emitted]  # type: ignore[operator]
         if not finished and got[:len(want_seq)] == want_seq and len(got) <= len(want_seq):
             return None  # did not terminate within the bound but nothing wrong seen
@@ -207,6 +244,21 @@ def _check_iteration(leaves: list[Leaf], x: str, key: str, elem: str, nxt: str, 
         exits = lf.outcome in ("break", "return")
         if lf.outcome == "raise":
             return None
+        if kind == "C":  # do-while: X is due and not None; emit it, then leave iff it has no successor
+            if ys != [elem]:
+                return False, f"emits {ys} where {elem} is due"
+            if key not in lf.assign:
+                return False, "continues / leaves without testing whether a successor exists"
+            if lf.assign[key]:
+                if not exits:
+                    return False, "does not stop at the end of the chain"
+            else:
+                if exits:
+                    return False, "stops although a successor exists"
+                got = _last_store(lf.stmts, x)
+                if got != nxt:
+                    return False, f"advances `{x}` to {got} instead of {nxt}"
+            continue
         if key not in lf.assign:
             return False, "the loop yields or leaves without testing whether the chain has ended"
         if lf.assign[key]:
